@@ -177,7 +177,7 @@ pub fn facts(v: &Value, registry: &TrustAnchorRegistry, transcript: &Value) -> S
     let mut dig = mso_v.is_some();
     if let (Some(Value::Map(nss)), Some(m)) = (nsv, mso_v.as_ref()) {
         for (nsk, items) in nss {
-            let vd = mget(m, "valueDigests").and_then(|v| nsk.as_text().and_then(|n| mget(v, n))).and_then(|x| x.as_map());
+            let vd = mget(m, "valueDigests").and_then(|v| nsk.as_text().and_then(|n| mget_key(v, n))).and_then(|x| x.as_map());
             for it in items.as_array().cloned().unwrap_or_default() {
                 let ok = (|| { let b = match &it { Value::Tag(24, b) => b.as_bytes()?.clone(), _ => return None };
                     let iv: Value = cbor::from_slice(&b).ok()?; let id: i128 = mget(&iv, "digestID")?.as_integer()?.into();
@@ -412,7 +412,7 @@ pub fn run_c04(ctx: &mut Ctx) {
         go(ctx, "authentic", &mut base.clone(), false);
         // the model's reading of CBOR into a `ciborium::Value` against ciborium's own, on every single-bit flip of a real MSO payload
         // (first session; thorough: of every session's) and on random byte strings: accepted or not
-        if s == 0 || ctx.thorough {
+        if s == 0 || (ctx.thorough && s < 8) {
             let payload = issuer_auth_mut(&mut base.clone()).get(2).and_then(|p| p.as_bytes()).cloned().unwrap_or_default();
             let inner = match cbor::from_slice::<Value>(&payload) { Ok(Value::Tag(24, b)) => b.as_bytes().cloned().unwrap_or_default(), _ => vec![] };
             for src in [&payload, &inner] { for i in 0..src.len() * 8 { if !ctx.thorough && s == 0 && i % 3 != 0 && i > 400 { continue; }
